@@ -2,17 +2,20 @@
 # trial.sh <worktree> <patch> <prop> [seconds]: run a check against a patched
 # scratch worktree of the repository (mutant trials; never used for evidence).
 # The machinery is snapshotted first, so edits in /verif during the trial do
-# not mix versions.
+# not mix versions. Build directory and snapshot live at fixed paths (the Go
+# build cache keys on file paths); trials are serialised by a lock.
 WT=$1; PATCH=$2; PROP=$3; SECS=${4:-20}
 TAG=$(basename $WT)_$(basename $PATCH .patch)_$PROP
 SRC=${VERIF_HOME:-/verif}
-mkdir -p /tmp/vb_$TAG/verif
-rsync -a --delete --exclude .build --exclude replays --exclude .git --exclude evidence --exclude seeded --exclude findings $SRC/ /tmp/vb_$TAG/verif/
-export VERIF_HOME=/tmp/vb_$TAG/verif
-export VERIF_REPO=$WT VERIF_BUILD=/tmp/vb_$TAG VERIF_REPLAYS=/tmp/vb_$TAG/replays VERIF_EVIDENCE=/tmp/vb_$TAG/evidence VERIF_SECONDS=$SECS
+B=/tmp/vb_trial
+exec 8>/tmp/vb_trial.lock; flock 8
+mkdir -p $B/verif
+rsync -a --delete --exclude .build --exclude replays --exclude .git --exclude evidence --exclude seeded --exclude findings $SRC/ $B/verif/
+rm -rf $B/replays $B/evidence $B/out
+export VERIF_HOME=$B/verif
+export VERIF_REPO=$WT VERIF_BUILD=$B VERIF_REPLAYS=$B/replays VERIF_EVIDENCE=$B/evidence VERIF_SECONDS=$SECS
 git -C $WT checkout -q -- pkg cmd
 git -C $WT apply $PATCH || exit 9
 $VERIF_HOME/check $PROP quick > /tmp/vb_$TAG.out 2>/tmp/vb_$TAG.err; rc=$?
 git -C $WT checkout -q -- pkg cmd
 echo "$TAG exit=$rc $(grep -m1 -A1 '^VIOLATION' /tmp/vb_$TAG.out | tr '\n' ' ' | cut -c1-300)"
-rm -rf /tmp/vb_$TAG/vsim /tmp/vb_$TAG/overlay /tmp/vb_$TAG/xsync /tmp/vb_$TAG/out /tmp/vb_$TAG/verif
